@@ -39,6 +39,8 @@ def identify(rows):
         return "unlocked", info
     if not p2 or "error" in p2[0]:
         raise vlib.InfraError("protocol probe 2 failed: %s" % rows)
+    if not p2[0]["reload_waited_for_reader"] and p2[0]["held_at_post_v4"] >= 1:
+        return "reload-not-exclusive", info
     if p2[0]["stalled"]:
         return "nested-deferred", info
     if p2[0]["reload_done_when_reached"]:
@@ -73,6 +75,11 @@ def run(ctx):
     ctx.log("B: real processBdReq follows protocol %r (%s)" % (protocol, json.dumps(pinfo)[:200]))
     ctx.stage("B", protocol_identified=protocol, probe=pinfo)
     gen_protocol = protocol if protocol in SUFFIX else "single"
+    if protocol == "reload-not-exclusive":
+        ctx.violation("reload-not-exclusive", "ReloadSubnets returned (selector swapped) while a request was parked inside a selection holding "
+                      "the read lock: the swap is not exclusive with the selections", pinfo)
+    elif protocol == "unlocked":
+        ctx.violation("select-without-lock", "a selection ran without any read lock held (readers at the gates: %s)" % pinfo["held_at_gates"], pinfo)
 
     # ---------------------------------------------------------------- B: enumerate and replay
     suf = SUFFIX[gen_protocol]
@@ -80,14 +87,14 @@ def run(ctx):
     nb = {}
     nontrivial = 0
     total = 0
-    scen = ["a", "b"]
+    scen = ["a", "b"] if gen_protocol == "single" else ["a"]   # a defective protocol is reported from the first scenario already
     with open(beh_all, "w") as fo:
         for sc in scen:
             g = ctx.tlc(sdir, "Gen_RegistrarLocks.tla", "Gen_RegistrarLocks_%s_%s.cfg" % (suf, sc), timeout=1500, workers=8, count=False)
             if g["inv"]:
                 raise vlib.InfraError("generator failed: %s" % g["out"][-2000:])
             lines = open(g["beh_file"]).read().splitlines()
-            cap = REPLAY_CAP if gen_protocol == "single" else 8000   # a defective protocol is reported from the first scenario already
+            cap = REPLAY_CAP if gen_protocol == "single" else 15000
             if len(lines) > cap:
                 ctx.rng.shuffle(lines)
                 ctx.notes.append("scenario %s/%s: %d interleavings enumerated, %d (seeded sample) replayed" % (suf, sc, len(lines), cap))
@@ -120,6 +127,8 @@ def run(ctx):
     ctx.log("B: %d interleavings to replay %s" % (total, nb))
     if total < 500:
         raise vlib.InfraError("too few behaviours generated (%d)" % total)
+    if gen_protocol != "single":
+        ctx.notes.append("the code follows the defective protocol %r: only scenario a is replayed" % gen_protocol)
     rout = os.path.join(ctx.scratch, "replay_out.ndjson")
     res = ctx.go_test(PKG, FILES, "regprocessor", "^TestVerifLocksReplay$", env={"VERIF_IN": beh_all, "VERIF_OUT": rout}, timeout=3000)
     rows = ctx.read_results(rout)
